@@ -38,6 +38,11 @@ def handleCsv (op : String) (j : Json) : Except String Json := do
       let lt := getStrD j "lt" crlf
       let qa := getBoolD j "quote_all" false
       pure (strJ (writeRows lt qa r))
+  | "csv.rdsexport" => do
+      -- the text of `RowDataSheet.export(…, "csv")` for the records (header record first)
+      let r ← j.getObjVal? "records"
+      let r ← SheetsD.gridOfJ r
+      pure (strJ (rdsExportCsv r))
   | "csv.read" => do
       -- text of a file opened with newline="" through `csv.reader`
       let t ← getStr j "text"
